@@ -161,8 +161,20 @@ def _eligible(fn: ast.AST) -> Optional[Tuple[List[ast.stmt], ast.expr]]:
     body = [s for i, s in enumerate(fn.body) if not (i == 0 and _doc(s))]  # type: ignore[attr-defined]
     if not body:
         return None
+    tree_k = None
     if isinstance(body[-1], ast.Return) and body[-1].value is not None:
         pre, ret, last = body[:-1], body[-1].value, body[-1]
+        if any(isinstance(n, ast.Return) for s in pre for n in ast.walk(s)):
+            # a decision tree of returns (`if c: return a` ... `return z`) is the conditional expression `a if c else ... z`
+            for k in range(len(body)):
+                if any(isinstance(n, ast.Return) for s in body[:k] for n in ast.walk(s)):
+                    break
+                rt = _ret_tree(body[k:])
+                if rt is not None:
+                    tree_k, pre, ret = k, body[:k], rt
+                    break
+            if tree_k is None:
+                return None
     else:
         # a procedure (returns nothing: mutates an argument, raises, calls on): its statements are spliced in, the call yields None
         last = body[-1] if isinstance(body[-1], ast.Return) else None
@@ -176,13 +188,34 @@ def _eligible(fn: ast.AST) -> Optional[Tuple[List[ast.stmt], ast.expr]]:
         if any(isinstance(n, ast.Name) and isinstance(n.ctx, (ast.Store, ast.Del)) and n.id in params for n in ast.walk(s)):
             return None  # a parameter that is re-bound cannot be substituted by its argument
     for n in ast.walk(fn):
-        if n is not fn and isinstance(n, (ast.FunctionDef, ast.AsyncFunctionDef, ast.Lambda, ast.Yield, ast.YieldFrom, ast.Return)) and n is not last:
+        if n is not fn and isinstance(n, (ast.FunctionDef, ast.AsyncFunctionDef, ast.Lambda, ast.Yield, ast.YieldFrom)):
+            return None
+        if isinstance(n, ast.Return) and n is not last and tree_k is None:
             return None
         if isinstance(n, ast.Name) and n.id == fn.name:  # type: ignore[attr-defined]
             return None
         if isinstance(n, ast.Attribute) and n.attr == fn.name and isinstance(n.value, ast.Name) and n.value.id in ("self", "cls"):  # type: ignore[attr-defined]
             return None
     return pre, ret
+
+
+def _ret_tree(stmts: List[ast.stmt]) -> Optional[ast.expr]:
+    if len(stmts) == 1 and isinstance(stmts[0], ast.Return) and stmts[0].value is not None:
+        return stmts[0].value
+    if stmts and isinstance(stmts[0], ast.If):
+        a = _ret_tree(stmts[0].body)
+        if a is None:
+            return None
+        if stmts[0].orelse:
+            if len(stmts) != 1:
+                return None
+            b = _ret_tree(stmts[0].orelse)
+        else:
+            b = _ret_tree(stmts[1:])
+        if b is None:
+            return None
+        return ast.copy_location(ast.IfExp(test=stmts[0].test, body=a, orelse=b), stmts[0])
+    return None
 
 
 def _stored_names(nodes: List[ast.AST]) -> Set[str]:
